@@ -477,6 +477,11 @@ def r6_9(ctx):
               "only %d closing-fence tests found in MarkdownIterator::next (2 confirmed by reading)" % n)
 
 
+def r6_6(ctx):
+    from . import c10
+    c10.r10_6(ctx)
+
+
 def r6_8(ctx):
     f = ctx.prog.fn("read_file")
     o = Origins(f)
@@ -497,6 +502,7 @@ def run(ctx):
     ctx.run_rule("R6.3", "extract_code_block_start rejects exactly the lines with 0..2 leading backticks [E-TABLE on the guard]", r6_3, floor=1)
     ctx.run_rule("R6.4", "every `x[x.len()-k]` in parsers/generators/renderers/diff/expectation is dominated by a non-emptiness guard [E-PATH]", r6_4, floor=1)
     ctx.run_rule("R6.5", "line counter pairing: exactly one line_index increment per consumed line; stored numbers are line_index-1 [E-STATE by segment enumeration]", r6_5, floor=3)
+    ctx.run_rule("R6.6", "consumed-line conservation: each line read by the tokenizer is stored in exactly one token field or consumed as a delimiter on every path (shared with C10 R10.6) [E-STATE by dataflow]", r6_6, floor=4)
     ctx.run_rule("R6.7", "parse feeds every code line to add_testcase_body; end_testcase builds the TestCase from the parser state [E-FLOW]", r6_7, floor=7)
     ctx.run_rule("R6.9", "closing-fence predicate is a prefix test against the opener's fence (equality would reject longer closing fences) [E-TABLE of accepted forms]", r6_9, floor=3)
     ctx.run_rule("R6.8", "read_file normalises CRLF through replace_crlf before parsing [E-FLOW]", r6_8, floor=1)
